@@ -226,6 +226,151 @@ def rule2(chk, db, cfgname):
     chk.count('c14.2.transform_calls', n)
 
 
+def rule_refit(chk, db, cfgname):
+    chk.rule('C14.4', 'bottom-up BVH refit (BuildInternalBoxes): a thread leaves the climb towards the root only when it '
+             'is the first to arrive at a node (the arrival-counter test); the second arrival always recomputes the '
+             'node box from both children and continues, so after UpdateBoxes every ancestor bounds its subtree')
+    fs = [f for f in db.functions.values() if f.get('blocks') and 'BuildInternalBoxes' in f['name'] and
+          f.get('op') == '()']
+    if not fs:
+        raise AnalysisBroken('C14.4: BuildInternalBoxes::operator() not found')
+    for f in fs[:1]:
+        g = C.Cfg(f)
+        loop = g.in_loop()
+        if not loop:
+            raise AnalysisBroken('C14.4: BuildInternalBoxes has no climb loop')
+        n = 0
+        for b in f['blocks']:
+            if b['id'] in loop or not any(p in loop for p in g.pred.get(b['id'], [])):
+                continue          # exits taken from inside the climb loop
+            for e in b['ev']:
+                if e.get('k') != 'return':
+                    continue
+                n += 1
+                deps, work, seen = [], [b['id']], set()
+                while work:
+                    y = work.pop()
+                    for d, k in g.control_deps(y):
+                        if (d, k) not in seen and d in loop:
+                            seen.add((d, k))
+                            deps.append(d)
+                            work.append(d)
+                conds = [C.branch_cond(g.blocks[d])[0] for d in deps]
+                bad = [T.pstr(c)[:60] for c in conds if c is not None and not any(
+                    isinstance(y, dict) and y.get('k') == 'call' and T.short(y.get('fn', '')) in ('AtomicAdd', 'fetch_add')
+                    for y in T.walk(c)) and 'kRoot' not in T.pstr(c)]
+                ok = not bad and bool(conds)
+                chk.obligation(ok, {'function': f['name'][:70], 'line': e.get('ln'),
+                                    'early exit controlled by': [T.pstr(c)[:50] for c in conds if c is not None]})
+                if not ok:
+                    chk.violation('C14.4', f, 'refit climb abandoned under %s' % (bad[:1] or ['?'])[0],
+                                  'a thread stops climbing the BVH for a reason other than being the first arrival '
+                                  '(%s): the sibling already left, so the ancestors of this node keep their old '
+                                  'boxes and overlapping pairs are missed after UpdateBoxes' % '; '.join(bad),
+                                  line=e.get('ln'), cfg=cfgname)
+        # the node box is assigned from both children in the loop
+        assigns = 0
+        for b in f['blocks']:
+            if b['id'] not in loop:
+                continue
+            for e in b['ev']:
+                if e.get('k') == 'call' and e.get('op') == '=' and e.get('recv') is not None and \
+                        'nodeBBox_' in T.pstr(e['recv']):
+                    txt = T.pstr(e)
+                    a0 = T.strip_copy(e['args'][0]) if e.get('args') else {}
+                    if a0.get('k') == 'var':
+                        for bb in f['blocks']:
+                            for ee in bb['ev']:
+                                if ee.get('k') == 'decl':
+                                    for v in ee['vars']:
+                                        if v['n'] == a0['n'] and v.get('init') is not None:
+                                            txt += T.pstr(v['init'])
+                    if 'Union' in txt:
+                        assigns += 1
+        chk.obligation(assigns >= 1, {'function': f['name'][:70], 'node box recomputed from children in the loop': assigns})
+        if assigns < 1:
+            chk.violation('C14.4', f, 'node box not recomputed', 'the climb loop no longer assigns the union of the '
+                          'children boxes to the node', cfg=cfgname)
+        chk.count('c14.4.early_exits', n)
+
+
+def rule_tree2d(chk, db, cfgname):
+    chk.rule('C14.5', 'QueryTwoDTree prunes with closed comparisons only: a subtree is skipped through Rect::DoesOverlap '
+             '(closed, C14.1) or a non-strict comparison of the query rectangle with the split coordinate - points '
+             'equal to the median coordinate lie on both sides of a split, so a strict test loses them')
+    fs = [f for f in db.functions.values() if f.get('blocks') and T.short(f['name']) == 'QueryTwoDTree']
+    if not fs:
+        raise AnalysisBroken('C14.5: QueryTwoDTree not instantiated')
+    n = 0
+    for f in fs:
+        rect = [p['n'] for p in f['params'] if (db.T(f, p['t']).get('r') or '').endswith('Rect')]
+        pts = [p['n'] for p in f['params'] if 'VecView' in (db.T(f, p['t']).get('c') or '')]
+        if not rect or not pts:
+            raise AnalysisBroken('C14.5: QueryTwoDTree parameters changed')
+        # dependency of locals on the query rectangle / the point set
+        dep = {rect[0]: {'R'}, pts[0]: {'P'}}
+        changed = True
+        while changed:
+            changed = False
+            for b in f['blocks']:
+                for e in b['ev']:
+                    pairs = []
+                    if e.get('k') == 'decl':
+                        pairs = [(v['n'], v.get('init')) for v in e['vars'] if v.get('init') is not None]
+                    elif e.get('k') == 'bin' and e.get('op') == '=' and T.root_of(T.strip(e['l'])) is not None:
+                        pairs = [(T.root_of(T.strip(e['l'])).get('n'), e['r'])]
+                    elif e.get('k') == 'call' and e.get('op') == '=' and e.get('recv') is not None and \
+                            T.root_of(T.strip(e['recv'])) is not None and e.get('args'):
+                        pairs = [(T.root_of(T.strip(e['recv'])).get('n'), e['args'][0])]
+                    for name, init in pairs:
+                        if not name:
+                            continue
+                        d = set()
+                        for y in T.walk(init):
+                            if isinstance(y, dict) and y.get('k') == 'var':
+                                d |= dep.get(y['n'], set())
+                        if not d <= dep.get(name, set()):
+                            dep[name] = dep.get(name, set()) | d
+                            changed = True
+
+        def deps_of(n):
+            d = set()
+            for y in T.walk(n):
+                if isinstance(y, dict) and y.get('k') == 'var':
+                    d |= dep.get(y['n'], set())
+            return d
+        seen = set()
+        for b in f['blocks']:
+            nodes = list(b['ev'])
+            if b.get('term') and 'cond' in b['term']:
+                nodes.append(b['term']['cond'])
+            for e in nodes:
+                for x in T.walk(e):
+                    if not (isinstance(x, dict) and x.get('k') == 'bin' and x.get('op') in ('<', '>', '<=', '>=')):
+                        continue
+                    key = (x.get('ln'), T.pstr(x))
+                    if key in seen:
+                        continue
+                    dl, dr = deps_of(x['l']), deps_of(x['r'])
+                    if not (('R' in dl and 'P' in dr) or ('P' in dl and 'R' in dr)):
+                        continue
+                    seen.add(key)
+                    n += 1
+                    ok = x['op'] in ('<=', '>=')
+                    chk.obligation(ok, {'function': f['key'].split(' :: ')[0][:60], 'line': x.get('ln'),
+                                        'comparison': T.pstr(x)[:50], 'closed': ok})
+                    if not ok:
+                        chk.violation('C14.5', f, 'strict pruning test %s' % T.pstr(x)[:40],
+                                      'the 2D tree query compares the query rectangle with a split coordinate using '
+                                      'a strict inequality: a point whose coordinate equals the median and that sits '
+                                      'on the other side of the split is never visited', line=x.get('ln'), cfg=cfgname)
+        calls = sum(1 for b in f['blocks'] for e in b['ev'] if e.get('k') == 'call' and
+                    T.short(e.get('fn', '')) in ('DoesOverlap', 'Contains') and 'Rect' in e.get('fn', ''))
+        chk.count('c14.5.closed_predicate_calls', calls)
+    chk.count('c14.5.direct_comparisons', n)
+    chk.count('c14.5.instantiations', len(fs))
+
+
 def main(chk, tier):
     import db as D
     import c07
@@ -238,6 +383,10 @@ def main(chk, tier):
         chk.functions_analysed += len(db.functions)
         rule1(chk, db, cfgname)
         rule2(chk, db, cfgname)
+        rule_refit(chk, db, cfgname)
+        rule_tree2d(chk, db, cfgname)
+        import scratch
+        scratch.rule(chk, db, cfgname, 'C14.6')
         t2 = {'permutation_sites': [s for s in tab['permutation_sites'] if 'SortFaces' in s['function'] or
                                     'MergeMeshGLP' in s['function']]}
         c07.rule_groups(chk, db, cfgname, t2, 'C14.3')
@@ -245,6 +394,9 @@ def main(chk, tier):
     chk.floor('c14.1.predicates', 7 * n)
     chk.floor('c14.1.configurations', 1000 * n)
     chk.floor('c14.3.group_members', 4 * n)
+    chk.floor('c14.4.early_exits', n)
+    chk.floor('c14.5.instantiations', n)
+    chk.floor('c14.6.scratch_buffers', 5 * n)
     return chk.finish(
         'Finite-domain abstract evaluation of the return expressions of the seven Box/Rect overlap and containment '
         'predicates (interpreted by the checker over every ordering of interval endpoints per axis; no floating-point '
